@@ -27,7 +27,7 @@ ASSUME = ['INI syntax is configparser with default options (so % is written %%),
           'options that cannot be given in a file (-c, -V, -h, positional SOURCEPATH) are compared through add-package or skipped',
           'a file is written in the format its name documents; which parser accepted it is observed by wrapping the parsers']
 DECIDING = {'door_comparisons': 1500, 'options_covered': 38, 'quoting_roundtrips_file': 1000, 'quoting_pure': 10000,
-            'override_cases': 30, 'unknown_key_cases': 10, 'append_cases': 10}
+            'override_cases': 30, 'unknown_key_cases': 10, 'append_cases': 10, 'accumulation_checks': 10}
 CPU_S = 600
 HANG_IS_VIOLATION = True
 
@@ -209,7 +209,7 @@ def _spellings(fmt: str, kind: str, v: Any) -> List[str]:
             return ['array']
         sp = ['listliteral']
         # configparser (default options) treats an indented line starting with '#' or ';' as a comment
-        if v and all(_ini_raw_ok(x) and x[0] not in '#;' for x in v) and len(v) >= 2:
+        if v and all(_ini_raw_ok(x) and x[0] not in '#;' for x in v):
             sp.append('multiline')
         return sp
     # string
@@ -241,6 +241,21 @@ def _outcome(argv: List[str], cwd: str) -> Tuple[str, Any, List[str]]:
                 return 'raise', f'{type(e).__name__}: {e}', [str(w.message) for w in ws]
         d = {f.name: repr(getattr(o, f.name)) for f in attr.fields(type(o))}
         return 'ok', d, [str(w.message) for w in ws]
+    finally:
+        os.chdir(old)
+
+
+def _raw(argv: List[str], cwd: str, dest: str) -> Any:
+    from pydoctor.options import Options
+    old = os.getcwd()
+    os.chdir(cwd)
+    try:
+        with warnings.catch_warnings(), contextlib.redirect_stderr(io.StringIO()), contextlib.redirect_stdout(io.StringIO()):
+            warnings.simplefilter('ignore')
+            try:
+                return getattr(Options.from_args(argv), dest, None)
+            except (SystemExit, Exception):  # noqa: BLE001
+                return None
     finally:
         os.chdir(old)
 
@@ -305,6 +320,16 @@ def _run_A(case: Dict[str, Any], res: core.Res) -> None:
     res.setadd('options', act['dest'])
     with _Dir() as d:
         ref = _outcome(cli, d) if cli is not None else None
+        if kind == 'list' and ref is not None and ref[0] == 'ok' and len(v) >= 2 and act['dest'] in ref[1]:
+            # "repeated options accumulate in order": what the whole list yields is what its elements yield one by one, concatenated
+            singles = [_raw(_cli_for(act, [x]) or [], d, act['dest']) for x in v]
+            whole = _raw(cli, d, act['dest'])
+            if all(isinstance(x, list) for x in singles + [whole]):
+                res.c('accumulation_checks')
+                exp = [y for x in singles for y in x]
+                if whole != exp:
+                    res.v('C20:repeated-option-does-not-accumulate-in-order', f"{act['dest']}: {cli} yields {whole!r}; given one at a time the values yield {exp!r}",
+                          option=act['dest'], value=v, cli=cli)
         for fname, fmt, section in FORMATS:
             for key in act['keys'][:1]:
                 for sp in _spellings(fmt, kind, v):
